@@ -17,8 +17,95 @@ import (
 var c07Cfgs = []Cfg{{}, {Pretty: true, Indent: -2, Semi: -1}, {Pretty: true, Indent: -1, Semi: 0}}
 
 type c07Payload struct {
-	Lit string `json:"literal"`
-	Cfg int    `json:"cfg"`
+	Lit  string `json:"literal"`
+	Cfg  int    `json:"cfg"`
+	Long string `json:"long,omitempty"` // descriptor of a generated long literal (kind:length) instead of its text
+}
+
+// c07LongLit builds the long literal a descriptor names. The value is observed through length, both ends
+// and the position of a marker, not printed in full.
+func c07LongLit(kind string, n int) string {
+	body := make([]byte, n)
+	for i := range body {
+		body[i] = "abcdefghij"[i%10]
+	}
+	if n > 4 {
+		body[n/2] = 'Z'
+	}
+	var lit string
+	switch kind {
+	case "sq":
+		lit = "'" + string(body) + "'"
+	case "dq":
+		lit = "\"" + string(body) + "\""
+	case "tpl":
+		lit = "`" + string(body) + "`"
+	case "tpl-lines":
+		for i := 999; i < n; i += 1000 {
+			body[i] = '\n'
+		}
+		lit = "`" + string(body) + "`"
+	case "esc":
+		for i := 0; i+1 < n; i += 50 {
+			body[i], body[i+1] = '\\', 'n'
+		}
+		lit = "\"" + string(body) + "\""
+	case "frac":
+		for i := range body {
+			body[i] = "0123456789"[i%10]
+		}
+		return "(0." + string(body) + " + '|' + 1" + string(body[:n%300]) + ")"
+	}
+	return "(function(s) { return s.length + ':' + s.slice(0, 3) + ':' + s.slice(-3) + ':' + s.indexOf('Z') + ':' + s.lastIndexOf('j') })(" + lit + ")"
+}
+
+// c07Long: literals whose LENGTH is the variable, around the buffer sizes an output path may use
+// (2^8, 2^12, 2^16, 2^20, and beyond).
+func c07Long(c *core.Ctx) {
+	var sizes []int
+	for _, p := range []int{8, 12, 16, 20} {
+		for d := -2; d <= 2; d++ {
+			sizes = append(sizes, 1<<p+d)
+		}
+	}
+	sizes = append(sizes, 100000, 3<<19, 1<<21+1)
+	for _, kind := range []string{"sq", "dq", "tpl", "tpl-lines", "esc", "frac"} {
+		for _, n := range sizes {
+			if !c.Next() || c.Tick() {
+				continue
+			}
+			if kind == "frac" && n > 1<<16+2 {
+				continue
+			}
+			desc := fmt.Sprintf("%s:%d", kind, n)
+			c.Cur("long literal " + desc)
+			lit := c07LongLit(kind, n)
+			for ci, cfg := range c07Cfgs {
+				st, d := c07One(lit, cfg)
+				switch st {
+				case "ok":
+					if ci == 0 {
+						c.Inc("literals")
+						c.Inc("fam:long-literals")
+					}
+					c.Inc("literal_evaluations")
+				case "engine-rejects":
+					c.Inc("outside_domain_engine_rejects_source")
+				case "xjs-rejects":
+					if ci == 0 {
+						c.Inc("xjs_rejects_valid_literal")
+						c.Note("xjs_rejects_example:long-literals", desc+" — "+d)
+					}
+				default:
+					c.Inc("literal_evaluations")
+					if c.ShrinkOK(st + "long" + kind) {
+						pl, _ := json.Marshal(c07Payload{Cfg: ci, Long: desc})
+						c.Violate(core.Violation{Kind: st, Config: cfg.String(), Case: "generated literal " + desc + " (kind:length; body abcdefghij… with Z in the middle)", Detail: core.Short(d, 600), Payload: pl, Size: 100 + len(desc)})
+					}
+				}
+			}
+		}
+	}
 }
 
 func c07Prog(lits []string) string {
@@ -62,7 +149,7 @@ func c07One(lit string, cfg Cfg) (status, detail string) {
 		if oo.SyntaxError {
 			k = "output-syntax-error"
 		}
-		return k, fmt.Sprintf("emitted %q\n   source value: %s\n   output value: %s", co.Code, so.Log, oo.Log+" "+oo.Kind)
+		return k, fmt.Sprintf("emitted %q\n   source value: %s\n   output value: %s", core.Short(co.Code, 400), core.Short(so.Log, 300), core.Short(oo.Log+" "+oo.Kind, 300))
 	}
 	return "ok", ""
 }
@@ -142,7 +229,7 @@ func (b *c07Batcher) flush() {
 				}
 				c.Inc("literal_evaluations")
 				if c.ShrinkOK(st + b.fam) {
-					pl, _ := json.Marshal(c07Payload{lit, ci})
+					pl, _ := json.Marshal(c07Payload{Lit: lit, Cfg: ci})
 					c.Violate(core.Violation{Kind: st, Config: cfg.String(), Case: lit, Detail: d, Payload: pl, Size: len(lit)})
 				}
 			}
@@ -172,6 +259,7 @@ func c07Fragments(n int) []string {
 }
 
 func c07Run(c *core.Ctx) {
+	c07Long(c)
 	quotes := []string{"'", "\""}
 	B := func(fam string) *c07Batcher { return &c07Batcher{c: c, fam: fam} }
 	wrap := func(q, body string) string { return q + body + q }
@@ -355,6 +443,20 @@ func c07Run(c *core.Ctx) {
 func c07Replay(pl json.RawMessage) (string, []core.Violation) {
 	var p c07Payload
 	json.Unmarshal(pl, &p)
+	if p.Long != "" {
+		var kind string
+		var n int
+		if i := strings.IndexByte(p.Long, ':'); i > 0 {
+			kind = p.Long[:i]
+			fmt.Sscan(p.Long[i+1:], &n)
+		}
+		st, d := c07One(c07LongLit(kind, n), c07Cfgs[p.Cfg])
+		out := fmt.Sprintf("generated literal %s config %s: %s", p.Long, c07Cfgs[p.Cfg], st)
+		if st != "ok" && st != "engine-rejects" && st != "xjs-rejects" {
+			return out, []core.Violation{{Kind: st, Config: c07Cfgs[p.Cfg].String(), Case: "generated literal " + p.Long, Detail: core.Short(d, 600)}}
+		}
+		return out, nil
+	}
 	st, d := c07One(p.Lit, c07Cfgs[p.Cfg])
 	out := fmt.Sprintf("literal %s config %s: %s", p.Lit, c07Cfgs[p.Cfg], st)
 	if st != "ok" && st != "engine-rejects" && st != "xjs-rejects" {
@@ -366,7 +468,7 @@ func c07Replay(pl json.RawMessage) (string, []core.Violation) {
 func init() {
 	core.Register(&core.PropSpec{
 		ID: "C07", Level: "exploration",
-		Rule:     "string literals in both quote styles: every \\xHH, every \\uHHHH, \\u{...} for 24 boundary code points x 1..8 digits x case, every ASCII byte raw / backslash-escaped / embedded, line continuations, raw UTF-8 text, ALL pairs over a 45-fragment alphabet (thorough: 61) and all triples over 16 (thorough: 30); backtick strings: all sequences <= 3 (thorough 4) over 14 fragments incl. escaped backtick, raw LF, trailing spaces + LF, CRLF, ${a}; numbers: 0..1000, 64-bit boundaries, all fractions with <=3+3 digits over {0,1,5,9}, exponent shapes, every hex/binary/octal literal of <= 2-3 digits + 64-bit boundaries; each accepted literal's value (UTF-16 code units / String(v)) is compared between source and emitted code (compact, pretty, pretty+tabs without semicolons) on the reference engine. Literals the engine rejects are outside the domain; literals xjs rejects are counted (acceptance is C02's subject). non-trivial = accepted literal compared (every literal is distinct) Added families: every first character of a literal body after every operator (and after unary - ! - -); literals as object keys (28 keys x both quotes) and number literals as member-access objects; literal interplay (first literal with quote/comment characters or escapes at its end, second multi-line with trailing blanks, same line and different lines of one function body).",
+		Rule:     "string literals in both quote styles: every \\xHH, every \\uHHHH, \\u{...} for 24 boundary code points x 1..8 digits x case, every ASCII byte raw / backslash-escaped / embedded, line continuations, raw UTF-8 text, ALL pairs over a 45-fragment alphabet (thorough: 61) and all triples over 16 (thorough: 30); backtick strings: all sequences <= 3 (thorough 4) over 14 fragments incl. escaped backtick, raw LF, trailing spaces + LF, CRLF, ${a}; numbers: 0..1000, 64-bit boundaries, all fractions with <=3+3 digits over {0,1,5,9}, exponent shapes, every hex/binary/octal literal of <= 2-3 digits + 64-bit boundaries; each accepted literal's value (UTF-16 code units / String(v)) is compared between source and emitted code (compact, pretty, pretty+tabs without semicolons) on the reference engine. Literals the engine rejects are outside the domain; literals xjs rejects are counted (acceptance is C02's subject). non-trivial = accepted literal compared (every literal is distinct) Added families: every first character of a literal body after every operator (and after unary - ! - -); literals as object keys (28 keys x both quotes) and number literals as member-access objects; literal interplay (first literal with quote/comment characters or escapes at its end, second multi-line with trailing blanks, same line and different lines of one function body); long literals: 6 kinds (both quotes, raw, raw with line breaks, escapes, long fraction) x 23 lengths 2^8, 2^12, 2^16, 2^20 (each -2..+2), 100000, 1.5 MiB, 2 MiB+1, value observed through length, ends and marker positions.",
 		Assume:   []string{"goja evaluates literals per ECMAScript (both sides use it)"},
 		QuickSec: 300, ThorSec: 1800, Run: c07Run, Replay: c07Replay,
 		Evals: "literal_evaluations", Nontriv: "literals",
